@@ -142,8 +142,15 @@ def check(ctx):
             ok = ok and add.dominates(ti[0][0], wc[0][0])
             # inserted value is EntityWorldLocal::new(data)
             vo = origins(add, ti[0][1]["args"][1])
-            ok = ok and all(o[0] == "call" and lib.tail(mir.fn_name(op_fn(add.blocks[o[1]]["term"]["func"])), 2) == "EntityWorldLocal::new"
-                            and lib.originates_from_arg(add, add.blocks[o[1]]["term"]["args"][0], 4) for o in vo) and bool(vo)
+            def _is_local_of_data(o):
+                if o[0] == "call":
+                    return lib.tail(mir.fn_name(op_fn(add.blocks[o[1]]["term"]["func"])), 2) == "EntityWorldLocal::new" \
+                        and lib.originates_from_arg(add, add.blocks[o[1]]["term"]["args"][0], 4)
+                if o[0] == "agg" and len(o) == 3:       # the one-field wrapper built in place
+                    ag_ = add.blocks[o[1]]["stmts"][o[2]]["rv"]["agg"]
+                    return ag_.get("adt", "").endswith("::EntityWorldLocal") and len(ag_["ops"]) == 1 and lib.originates_from_arg(add, ag_["ops"][0], 4)
+                return False
+            ok = ok and all(_is_local_of_data(o) for o in vo) and bool(vo)
         ctx.check(ok, "C16.b", "EntityReactor::add:data-attached-to-trigger-entity-before-registration", "%s:%d" % (add.file, add.line),
                   "try_insert(EntityWorldLocal::new(data)) on the entity the triggers are built for, queued before the registration",
                   "EntityReactor::add does not attach the data to the same entity as its triggers before registering")
